@@ -146,9 +146,13 @@ Section Micro.
       In m (msgs s) -> m_type m = MsgAppResp -> m_reject m = false -> m_to m = id ->
       m_term m = n_term (nodes s id) -> n_role (nodes s id) = Leader ->
       mstep s (set_node s id (set_match (upd (n_match (nodes s id)) (m_from m) (m_index m)) (nodes s id)))
-  | M_selfack : forall id,
-      n_role (nodes s id) = Leader ->
-      mstep s (set_node s id (set_match (upd (n_match (nodes s id)) id (length (n_log (nodes s id)))) (nodes s id)))
+  | M_selfack : forall id k,
+      n_role (nodes s id) = Leader -> k <= length (n_log (nodes s id)) ->
+      mstep s (set_node s id (set_match (upd (n_match (nodes s id)) id k) (nodes s id)))
+  (* progress of a peer forgotten (the peer left the configuration; Match restarts at 0) *)
+  | M_lower : forall id f,
+      (forall x, f x <= n_match (nodes s id) x) ->
+      mstep s (set_node s id (set_match f (nodes s id)))
   | M_commit : forall id cfg,
       In cfg F ->
       n_role (nodes s id) = Leader ->
